@@ -12,6 +12,25 @@ int main(void)
 	static uint8_t buf[1 << 21];
 	while (fgets(line, sizeof line, stdin)) {
 		unsigned type; int off = 0;
+		if (!strncmp(line, "big ", 4)) {
+			// big <type> <total bytes> <piece> <seed>: a long generated message (byte i = (i * 131 + seed) & 255 within each
+			// 1 MiB period) pushed through the check in pieces; for the message-length arithmetic beyond 2^32 bits
+			unsigned long long total, piece, seed; unsigned t2;
+			if (sscanf(line, "big %u %llu %llu %llu", &t2, &total, &piece, &seed) < 4 || piece == 0 || piece > (1 << 20)) { printf("ERR\n"); fflush(stdout); continue; }
+			static uint8_t pat[1 << 20];
+			for (size_t i = 0; i < sizeof pat; i++) pat[i] = (uint8_t)(i * 131 + seed);
+			lzma_check_state bs; lzma_check_init(&bs, (lzma_check)t2);
+			unsigned long long done = 0;
+			while (done < total) {
+				size_t off2 = (size_t)(done % sizeof pat), l = (size_t)piece;
+				if (l > sizeof pat - off2) l = sizeof pat - off2;
+				if (l > total - done) l = (size_t)(total - done);
+				lzma_check_update(&bs, (lzma_check)t2, pat + off2, l); done += l;
+			}
+			lzma_check_finish(&bs, (lzma_check)t2);
+			for (uint32_t i = 0; i < lzma_check_size((lzma_check)t2); i++) printf("%02x", bs.buffer.u8[i]);
+			printf("\n"); fflush(stdout); continue;
+		}
 		if (sscanf(line, "%u %n", &type, &off) < 1) { printf("ERR\n"); continue; }
 		char *h = line + off; size_t n = 0;
 		if (*h == '-') h++;
